@@ -85,7 +85,11 @@ def run(ctx):
     vals = values(rng, n, 2 if big else 4)
     if big and ctx.tier == 'quick': vals = vals[:2] + vals[-3:]
     for a in vals:
-      x = Bits(n, a)
+      try:
+        x = Bits(n, a)
+      except Exception as e:
+        ctx.violation(f'C04:ctor-valid:{n}:{a}', f'Bits({n}, {a}) with 0 <= value < 2^{n} raises {type(e).__name__}: {str(e)[:120]}', {'n': n, 'value': a, 'error': repr(e)})
+        continue
       # operands
       ops = [('bits', n, b) for b in (values(rng, n, 1)[:3] + values(rng, n, 1)[-2:])]
       ops += [('bits', n, rng.randrange(0, min(n + 2, 1 << n)))]           # small shift amounts
@@ -105,6 +109,8 @@ def run(ctx):
           r = res_of(lambda: getattr(x, DUNDER[op])(y))
           if not isinstance(r, tuple):
             check_invariant(r, f'{op} n={n} a={a} o={o}')
+            if r is x or r is y:
+              ctx.violation(f'C04:alias:{op}', f'Bits{n}({a}).{DUNDER[op]}({o}) returns one of its operands instead of a new value object (in-place updates would leak)', {'op': op, 'n': n, 'a': a, 'operand': o})
             t, _ = bits_res(r)
           else: t = r[0]
           add(f'BOp {op}', n, a, o, t, f'Bits{n}({a}).{DUNDER[op]}({o})')
@@ -149,7 +155,7 @@ Definition runk (k : opk) (n a : Z) (o : operand) : res (Z * Z) :=
                             "let '(k, n, a, o, e) := c in res_eqb pair_eqb (runk k n a o) e")
   for i in bad[:20]:
     exp = ctx.coq_eval('exp', 'Base.Prelude Bits.BitsSpec', defs,
-                       ["let '(k, n, a, o, e) := " + cases[i] + " in runk k n a o"])
+                       ["(fun c : opk * Z * Z * operand * res (Z * Z) => let '(k, n, a, o, e) := c in runk k n a o) " + cases[i]])
     ctx.violation(f'C04:op:{meta[i]}', f'{meta[i]}: implementation gives {cases[i].rsplit(", ", 1)[-1][:-1][:120]}, spec gives {exp[0][:120]}',
                   {'case': meta[i], 'coq_case': cases[i], 'spec': exp[0]})
 
@@ -204,6 +210,13 @@ Definition runk (k : opk) (n a : Z) (o : operand) : res (Z * Z) :=
     T = getattr(BI, f'Bits{n}', None) or mk_bits(n)
     if T.nbits != n or T.__name__ != f'Bits{n}':
       ctx.violation(f'C04:BitsN-class:{n}', f'Bits{n} class reports nbits={T.nbits} name={T.__name__}', {'n': n})
+    # a Bits operand of the same / another width, with and without trunc_int (the generated class must behave like Bits(n, v))
+    for (m_, tr_) in ((n, False), (max(1, n - 1), False), (min(1023, n + 1), False), (min(1023, n + 4), True), (max(1, n // 2), True)):
+      vb = rng.getrandbits(m_)
+      r = res_of(lambda: T(Bits(m_, vb), trunc_int=tr_))
+      t = r[0] if isinstance(r, tuple) else bits_res(r)[0]
+      c2.append(f'(KInit {"true" if tr_ else "false"}, {n}, 0, 0, (OBits {m_} {zlit(vb)}), {t})'); m2.append(f'Bits{n}(Bits{m_}({vb}), trunc_int={tr_})')
+      ctx.count(('BitsN-bits', n, m_, tr_), True, cls='BitsN-class-bits-operand')
     ks = [0, (1 << n) - 1, -(1 << (n-1)), 1 << n] if n <= 64 or n in (255, 256, 384, 512, 1023) else [(1 << n) - 1, -(1 << (n-1)) - 1]
     for k in ks:
       r = res_of(lambda: T(k))
@@ -222,7 +235,7 @@ Definition run2 (k : k2) (n u nx : Z) (v : operand) : res (Z * Z) :=
   bad = ctx.coq_bad_indices('st', 'Base.Prelude Bits.BitsSpec', defs2, 'k2 * Z * Z * Z * operand * res (Z * Z)', c2,
                             "let '(k, n, u, nx, v, e) := c in res_eqb pair_eqb (run2 k n u nx v) e")
   for i in bad[:20]:
-    exp = ctx.coq_eval('exp2', 'Base.Prelude Bits.BitsSpec', defs2, ["let '(k, n, u, nx, v, e) := " + c2[i] + " in run2 k n u nx v"])
+    exp = ctx.coq_eval('exp2', 'Base.Prelude Bits.BitsSpec', defs2, ["(fun c : k2 * Z * Z * Z * operand * res (Z * Z) => let '(k, n, u, nx, v, e) := c in run2 k n u nx v) " + c2[i]])
     ctx.violation(f'C04:state:{m2[i]}', f'{m2[i]}: implementation gives {c2[i].rsplit(", ", 1)[-1][:-1][:120]}, spec gives {exp[0][:120]}',
                   {'case': m2[i], 'coq_case': c2[i], 'spec': exp[0]})
   ctx.sample({'kind': 'ctor/assign', 'case': m2[3], 'coq': c2[3]})
